@@ -89,8 +89,9 @@ type Shared struct {
 }
 
 type xcheck struct {
-	Script string
-	Expect SatResult
+	Script  string
+	Expect  SatResult
+	Decider string
 }
 
 type runStats struct {
@@ -249,7 +250,7 @@ func (w *Worker) runPath(fn *ssa.Function, prefix []int64) (alts [][]int64) {
 		slotCache: map[types.Type]int{}, globals: map[*ssa.Global]*Obj{}, sentinels: map[string]IfaceV{},
 		covers: map[string]bool{}, classes: map[string]*Term{}, symSeq: map[string]int{},
 		funcs: map[string]bool{}, maxStep: sh.maxSteps, vsets: map[string]*byteSet{}, unaryBy: map[string][]*Term{}, pcSet: map[*Term]bool{}, entangled: map[string]bool{}}
-	main := &G{id: 0, resume: make(chan bool)}
+	main := &G{id: 0, resume: make(chan bool, 1)}
 	ex.gs = []*G{main}
 	ex.cur, ex.main = main, main
 	outcome, detail := "done", ""
@@ -283,9 +284,11 @@ func (w *Worker) runPath(fn *ssa.Function, prefix []int64) (alts [][]int64) {
 	}()
 	// stop remaining goroutines
 	ex.dead = true
+	// (the resume channels are buffered, so a goroutine that is between handing over and parking
+	// still finds the token; its done flag is never set from here - a goroutine that saw done == true
+	// after handing over would skip parking and keep running next to the worker)
 	for _, g := range ex.gs[1:] {
 		if !g.done {
-			g.done = true
 			select {
 			case g.resume <- false:
 			default:
